@@ -10,6 +10,7 @@ import (
 	"io/ioutil"
 	"os"
 	"runtime/debug"
+	"strings"
 	"testing"
 
 	"pgregory.net/rapid"
@@ -42,10 +43,37 @@ type Prop struct {
 func safeRun(p Prop, c interface{}, k *vstats.Case) (err error) {
 	defer func() {
 		if r := recover(); r != nil {
-			err = fmt.Errorf("panic: %v\n%s", r, debug.Stack())
+			// rapid accepts a shrink step only if re-running it fails with the very same message:
+			// goroutine numbers, argument values and pc offsets must not be part of it
+			err = fmt.Errorf("panic: %v\n%s", r, stableStack(debug.Stack()))
 		}
 	}()
 	return p.Run(c, k)
+}
+
+// stableStack reduces a stack dump to function names and file:line pairs of the panicking goroutine.
+func stableStack(b []byte) string {
+	var out []string
+	for i, l := range strings.Split(string(b), "\n") {
+		if i == 0 || l == "" {
+			continue // "goroutine N [running]:"
+		}
+		if strings.HasPrefix(l, "\t") {
+			if j := strings.Index(l, " +0x"); j >= 0 {
+				l = l[:j]
+			}
+			out = append(out, l)
+			continue
+		}
+		if j := strings.LastIndex(l, "("); j > 0 {
+			l = l[:j] // drop the argument values
+		}
+		out = append(out, l)
+		if len(out) > 60 {
+			break
+		}
+	}
+	return strings.Join(out, "\n")
 }
 
 // Main is the TestMain body of every harness package.
